@@ -69,6 +69,17 @@ def base_evidence(prop, tier, seed, m, d, rule, extra_assumptions=()):
             'distinct_schedule_signatures':
                 d['distinct_schedule_signatures'],
             'distinct_state_signatures': d['distinct_state_signatures'],
+            'measures': {
+                'distinct_run_digests': 'runs whose 64-bit digest (every '
+                'I/O/API event with its scheduler step index, every context '
+                'switch with its step index) differs',
+                'distinct_schedule_signatures': 'distinct hashes of the '
+                'sequence of context switches (from-thread, to-thread, step '
+                'mod 256)',
+                'distinct_state_signatures': 'distinct property-specific '
+                'abstract states/configurations reached (see the property '
+                'module: e.g. framing mode x cipher x variant, call-outcome '
+                'sequence, conversation x cut offset)'},
             'real_components': REAL,
             'stub_components': STUB,
         },
